@@ -142,6 +142,55 @@ def deframe(pn, raw, reqid=1):
     return out
 
 
+def aborted_client_and_page_cache(S, rnd, windex, cnt, res):
+    """a client that resets its connection while a page that is being copied to the cache is still rendered must not leave
+    a truncated page behind: the next client asking for the same key gets every byte the application writes for that page"""
+    for variant in range(2):
+        is_async = (windex + variant) % 2 == 1
+        key = b"abort-page-%d-%d" % (windex, variant)
+        n = rnd.choice([100000, 180000, 65536 * 3 + 7])
+        pid = rnd.randrange(1, 1000)
+        pieces = rnd.choice([1, 4, 16])
+        sizes = [n // pieces] * (pieces - 1) + [n - (n // pieces) * (pieces - 1)]
+        expected = b"".join(pat(pid + i, sz) for i, sz in enumerate(sizes))
+        ops = (["m1"] if not is_async else []) + ["K" + key.hex(), "T" + (key + b"-t").hex()] + ["w%d.%d" % (sz, pid + i) for i, sz in enumerate(sizes)]
+        q = b"s=" + ",".join(ops).encode()
+        app = b"/awriter" if is_async else b"/writer"
+        tok1 = b"AB%d-%da" % (windex, variant)
+        r1 = proto.Req(method=b"GET", script=app, query=q + b"&tok=" + tok1, token=tok1)
+        c = srv.Conn(S, "http", timeout=10, rcvbuf=4096)
+        try:
+            c.send(proto.http_encode(r1, version=b"1.0"))
+            c.s.settimeout(5)
+            try:
+                c.s.recv(1000)
+            except OSError:
+                pass
+            c.reset()
+        finally:
+            c.close()
+        tk = tok1.decode()
+        S.wait_events(lambda evs: any(e.get("token") == tk and e.get("ev") in ("written", "async_flush_aborted") for e in evs), 15)
+        time.sleep(0.05)
+        tok2 = b"AB%d-%db" % (windex, variant)
+        r2 = proto.Req(method=b"GET", script=app, query=q + b"&tok=" + tok2, token=tok2)
+        c = srv.Conn(S, "http", timeout=20)
+        try:
+            c.send(proto.http_encode(r2, version=b"1.0"))
+            raw, _ = c.recv_all(30)
+        finally:
+            c.close()
+        d = proto.http_parse_response(raw)
+        cnt("aborted_client_page_rounds")
+        rp = {"script": q.decode()[:300], "expected_len": len(expected), "async": is_async}
+        if d["status"] != 200 or d["errors"]:
+            res["viol"].append({"key": "c03:response-framing:http-after-aborted-client", "detail": "status %r errors %r" % (d["status"], d["errors"][:3]), "replay": rp})
+            return
+        if d["body"] != expected:
+            res["viol"].append({"key": "c03:page-cache-serves-what-an-aborted-client-left-behind", "detail": "the client after one that reset its connection mid-page got %d bytes, the application writes %d for this page" % (len(d["body"]), len(expected)), "replay": rp})
+            return
+
+
 def keepalive_header_isolation(S, rnd, windex, cnt, res):
     """on one kept-alive HTTP connection: a request whose response carries a cookie and a header, then requests served in raw /
     asynchronous_raw mode whose application writes no header block, an unterminated one, or a complete one: every response must carry
@@ -193,6 +242,8 @@ def worker(args):
     try:
         S = srv.Server(basedir, exe, "srv%d" % windex)
         keepalive_header_isolation(S, rnd, windex, cnt, res)
+        if not res["viol"]:
+            aborted_client_and_page_cache(S, rnd, windex, cnt, res)
         for ci in range(ncases):
             if res["viol"]:
                 break
